@@ -10,6 +10,7 @@ with integrality before it is replayed.
 """
 from __future__ import annotations
 
+import functools
 import itertools
 import math
 import time
@@ -233,6 +234,13 @@ def _sint_to_z3(e: sp.Expr) -> Any:
 class SInt:
     """Symbolic Python int: an exact integer polynomial in the dimension symbols."""
 
+    # torch's C argument parser accepts any object that carries __torch_function__ where it expects a Tensor, and then hands the
+    # call to the override: torch.mul(x, mult), torch.eq(idx, padding_idx), torch.div(y, mult) with a symbolic scalar reach engine S
+    @classmethod
+    def __torch_function__(cls, func: Any, types: Any, args: Any = (), kwargs: Any = None) -> Any:
+        from .tensor import dispatch
+        return dispatch(getattr(func, "__name__", str(func)), func, tuple(args), dict(kwargs or {}))
+
     __slots__ = ("e",)
 
     def __init__(self, e: Any):
@@ -270,7 +278,10 @@ class SInt:
         return float(c)
 
     def __hash__(self) -> int:
-        return hash(self.e)
+        # symbolic ints must COLLIDE in hash containers: set() / dict / `in` then fall back to ==, which forks on the path
+        # condition (len(set(numels)) == 1 is a comparison of symbolic sizes, not of their spellings)
+        c = self.concrete()
+        return hash(c) if c is not None else 0x51A7
 
     def __bool__(self) -> bool:
         r = self != 0
@@ -432,9 +443,35 @@ def _sreal(o: Any) -> "SReal":
         return o
     if isinstance(o, SInt):
         return o.real()
+    if isinstance(o, float) and Ctx.cur is not None:
+        r = _as_sqrt(o)
+        if r is not None:
+            # a source constant such as 2**0.5, 8**-0.5, 0.5**0.5: in the real-number model it *is* the square root (the
+            # double differs from it by <= 2 ulp); read as the exact rational, identities like c*c == 2 would be refuted by 1e-16
+            sign, rad = r
+            root = sym_pow(SReal(_q(rad), const=rad), Fraction(1, 2))
+            return root if sign > 0 else -root
     if isinstance(o, (int, float, Fraction)):
         return SReal(_q(o), const=Fraction(o))
     raise TypeError(f"cannot lift {type(o)} to SReal")
+
+
+@functools.lru_cache(maxsize=4096)
+def _as_sqrt(x: float) -> Optional[Tuple[int, Fraction]]:
+    """(sign, r) when the double x is within 2 ulp of sqrt(r) for a rational r with denominator <= 4096 that is not itself a
+    perfect square of a small rational; None otherwise."""
+    if x != x or x in (float("inf"), float("-inf")) or x == 0:
+        return None
+    ax = abs(x)
+    if float(Fraction(ax).limit_denominator(1 << 20)) == ax:
+        return None  # (the double nearest to) an ordinary short rational: 0.5, 3.0, 0.3, 1/3, ...
+    r = (Fraction(ax) ** 2).limit_denominator(4096)
+    if r <= 0:
+        return None
+    s = math.sqrt(float(r))
+    if abs(s - ax) <= 2 * math.ulp(ax):
+        return (1 if x > 0 else -1), r
+    return None
 
 
 def snap_exponent(p: Any) -> Fraction:
@@ -455,6 +492,13 @@ def snap_exponent(p: Any) -> Fraction:
 
 class SReal:
     """Symbolic Python float (modelled as a real)."""
+
+    # torch's C argument parser accepts any object that carries __torch_function__ where it expects a Tensor, and then hands the
+    # call to the override: torch.mul(x, mult), torch.eq(idx, padding_idx), torch.div(y, mult) with a symbolic scalar reach engine S
+    @classmethod
+    def __torch_function__(cls, func: Any, types: Any, args: Any = (), kwargs: Any = None) -> Any:
+        from .tensor import dispatch
+        return dispatch(getattr(func, "__name__", str(func)), func, tuple(args), dict(kwargs or {}))
 
     __slots__ = ("z", "const", "is_int")
 
@@ -659,6 +703,78 @@ class MathShim:
         for x in xs:
             out = out * x
         return out
+
+
+class NumpyShim:
+    """Stands in for `numpy` inside library modules during a session: the handful of scalar functions a library may apply to
+    Python numbers get their documented real-number meaning on symbolic values; everything else is numpy's own."""
+
+    def __getattr__(self, name: str) -> Any:
+        import numpy
+        return getattr(numpy, name)
+
+    @staticmethod
+    def _sym(*vs: Any) -> bool:
+        return any(isinstance(v, (SReal, SInt)) for v in vs)
+
+    @staticmethod
+    def isclose(a: Any, b: Any, rtol: Any = 1e-5, atol: Any = 1e-8, equal_nan: bool = False) -> Any:
+        """numpy's documented (asymmetric) rule: |a - b| <= atol + rtol * |b|"""
+        if not NumpyShim._sym(a, b, rtol, atol):
+            import numpy
+            return numpy.isclose(a, b, rtol=rtol, atol=atol, equal_nan=equal_nan)
+        a, b, rt, at = _sreal(a), _sreal(b), _sreal(rtol), _sreal(atol)
+        ab = lambda v: z3.If(v >= 0, v, -v)  # noqa: E731
+        return SBool(ab(a.z - b.z) <= at.z + rt.z * ab(b.z))
+
+    @staticmethod
+    def sqrt(x: Any) -> Any:
+        if not NumpyShim._sym(x):
+            import numpy
+            return numpy.sqrt(x)
+        return sym_pow(x, Fraction(1, 2))
+
+    @staticmethod
+    def power(x: Any, p: Any) -> Any:
+        if not NumpyShim._sym(x, p):
+            import numpy
+            return numpy.power(x, p)
+        return sym_pow(x, p)
+
+    @staticmethod
+    def prod(xs: Any, *a: Any, **k: Any) -> Any:
+        xs = list(xs)
+        if not NumpyShim._sym(*xs):
+            import numpy
+            return numpy.prod(xs, *a, **k)
+        return MathShim.prod(xs)
+
+    @staticmethod
+    def log(x: Any) -> Any:
+        if not NumpyShim._sym(x):
+            import numpy
+            return numpy.log(x)
+        return sym_log(x)
+
+    @staticmethod
+    def exp(x: Any) -> Any:
+        if not NumpyShim._sym(x):
+            import numpy
+            return numpy.exp(x)
+        return sym_exp(x)
+
+    @staticmethod
+    def abs(x: Any) -> Any:
+        if not NumpyShim._sym(x):
+            import numpy
+            return numpy.abs(x)
+        return abs(_sreal(x))
+
+    absolute = abs
+
+    @staticmethod
+    def square(x: Any) -> Any:
+        return x * x
 
 
 def sym_isclose(a: Any, b: Any, rel_tol: Any = 1e-9, abs_tol: Any = 0.0) -> Any:
